@@ -198,6 +198,14 @@ def run_scenario(sc):
     # monkeytype.tracing (random.randrange / random.Random() made per tracer), and - for a generator object created
     # elsewhere in monkeytype, e.g. at import time - random.Random.randrange itself when the caller is monkeytype code.
     import random as _random_mod
+    if sc.get("falsy_filter"):
+        # a filter OBJECT (callable) whose truth value is False - an empty collection of patterns with a __call__
+        inner_filter = code_filter
+
+        class PatternFilter(list):
+            def __call__(self, code):
+                return inner_filter(code)
+        code_filter = PatternFilter()
     old_random = mtt.random
     fake = script.FakeRandom()
     mtt.random = fake
@@ -573,7 +581,7 @@ def main(pid, tier, seed, replay=None):
         for i, b in enumerate(beh1 + beh2):
             tid = len(scs) + 1
             rate = rates[i % len(rates)]
-            scs.append({"tid": tid, "hist": b["hist"], "rate": rate, "k": 0, "seed": seed * 7919 + i, "twin_rejected": i % 4 == 3})
+            scs.append({"tid": tid, "hist": b["hist"], "rate": rate, "k": 0, "seed": seed * 7919 + i, "twin_rejected": i % 4 == 3, "falsy_filter": i % 16 == 5})
             preds[tid] = b["pred"]
             if i % 5 == 0:   # the same behaviour with rich values (no prediction; P-layer only)
                 scs.append({"tid": tid + 1, "hist": b["hist"], "rate": rate, "k": rng.choice([0, 3]),
@@ -596,7 +604,7 @@ def main(pid, tier, seed, replay=None):
     for v in verdicts:
         rec, sc = by_tid[v["tid"]], sc_by_tid[v["tid"]]
         for clause in v.get("viol", []):
-            case = {k: sc[k] for k in ("hist", "rate", "k", "seed", "twin_rejected") if k in sc}
+            case = {k: sc[k] for k in ("hist", "rate", "k", "seed", "twin_rejected", "falsy_filter") if k in sc}
             if "rich" in sc:
                 case["rich"] = sc["rich"]
             run.violation(scenario_signature(rec, sc, clause), case)
